@@ -64,8 +64,12 @@ ReqIdx(obj) == FirstIdx(reqs, LAMBDA r : r[1] = obj)
 ISum(i, vals) == WSum(Hd.comps[i + 1], Hd.w, vals)
 ITot(i) == WTot(Hd.comps[i + 1], Hd.w)
 AllKnown(i, vals) == \A k \in 1..Len(Hd.comps[i + 1]) : vals[Hd.comps[i + 1][k] + 1] >= 0
-IndexBad(e) == \E i \in 0..(NM - 1) :
-                  IsIdx(i) /\ (~e.iok[i + 1] \/ (e.idxv[i + 1] >= 0 /\ AllKnown(i, e.mkts) /\ e.idxv[i + 1] * ITot(i) # ISum(i, e.mkts)))
+\* idxh[k] = <<index market, time, index value at that time, side condition, market prices of all markets at that time>>
+IndexBad(e) ==
+  \/ \E i \in 0..(NM - 1) :
+        IsIdx(i) /\ (~e.iok[i + 1] \/ (e.idxv[i + 1] >= 0 /\ AllKnown(i, e.mkts) /\ e.idxv[i + 1] * ITot(i) # ISum(i, e.mkts)))
+  \/ \E k \in 1..Len(e.idxh) :
+        LET h == e.idxh[k] IN ~h[4] \/ (h[3] >= 0 /\ AllKnown(h[1], h[5]) /\ h[3] * ITot(h[1]) # ISum(h[1], h[5]))
 
 \* ------------------------------------------------------------------ steps
 Unch == UNCHANGED <<now, cs, F, fired, reqs, cnt, hs, accSeen, early>>
